@@ -142,7 +142,7 @@ theorem getBool_iff (s : Bytes) (b : Bool) :
   · by_cases h1 : toLowerAscii s = strTrue
     · cases b <;> simp [h, h1, strTrue, strFalse]
     · by_cases h2 : toLowerAscii s = strFalse
-      · cases b <;> simp [h, h1, h2, strTrue, strFalse]
+      · cases b <;> simp [h, h2, strTrue, strFalse]
       · cases b <;> simp [h, h1, h2]
 
 /-- typed getters fail cleanly — `none` is "returned false, out-parameter untouched": an empty value has no
